@@ -67,7 +67,8 @@ func runMutant(m *mutant, repo, verifDir, prop, self string) {
 		return
 	}
 	if m.Patch != "" {
-		cmd := exec.Command("patch", "-p1", "-s", "--no-backup-if-mismatch", "-i", filepath.Join(verifDir, m.Patch))
+		// exact context only: a hunk that needs fuzz has lost the code it was written against and must be ported
+		cmd := exec.Command("patch", "-p1", "-s", "-F0", "--no-backup-if-mismatch", "-i", filepath.Join(verifDir, m.Patch))
 		cmd.Dir = dir
 		if out, err := cmd.CombinedOutput(); err != nil {
 			m.res = mutantResult{Status: "skipped(no longer applies)", Lines: strings.TrimSpace(string(out))}
